@@ -270,6 +270,20 @@ def navigation_agrees(stmt, rng, max_offsets=400, max_groups=60):
             if got != i:
                 return 'token_index(child %d) = %d in %s' % (
                     i, got, type(g).__name__), calls
+            # with a start hint (an index or an earlier sibling)
+            if i > 0:
+                j = rng.randrange(0, i + 1)
+                calls += 2
+                try:
+                    got = g.token_index(c, j)
+                    got2 = g.token_index(c, toks[j])
+                except ValueError:
+                    return ('token_index(child %d, start=%d) raised in %s'
+                            % (i, j, type(g).__name__)), calls
+                if got != i or got2 != i:
+                    return ('token_index(child %d, start=%d / start=sibling) '
+                            '= %d / %d in %s' % (i, j, got, got2,
+                                                 type(g).__name__)), calls
             for skip_ws in (True, False):
                 for skip_cm in (True, False):
                     def skipped(t):
@@ -329,6 +343,24 @@ def navigation_agrees(stmt, rng, max_offsets=400, max_groups=60):
         if got is not want:
             return ('get_token_at_offset(%d) gave %r, the leaf covering it '
                     'is %r' % (o, got, want)), calls
+    # the same helper on nested groups, with offsets relative to the group
+    for g in groups[1:12]:
+        glv = leaves(g)
+        gtotal = sum(len(l.value) for l in glv)
+        for o in sorted({0, gtotal // 2, max(gtotal - 1, 0), gtotal}):
+            got = g.get_token_at_offset(o)
+            calls += 1
+            want = None
+            acc = 0
+            for l in glv:
+                if acc <= o < acc + len(l.value):
+                    want = l
+                    break
+                acc += len(l.value)
+            if got is not want:
+                return ('%s %r .get_token_at_offset(%d) gave %r, the leaf '
+                        'covering it is %r' % (type(g).__name__, g.value[:30],
+                                               o, got, want)), calls
     # ancestry
     anc = {}   # id(node) -> list of ancestors top-down
     stack = [(stmt, [])]
@@ -352,6 +384,8 @@ def navigation_agrees(stmt, rng, max_offsets=400, max_groups=60):
                 return ('%r.within(%s) = %s, structure says %s'
                         % (node, cls.__name__, not want, want)), calls
         others = rng.sample(groups, min(len(groups), 6))
+        if getattr(node, 'is_group', False):
+            others.append(node)        # no node is its own ancestor / child
         for other in others + path[-2:]:
             want_anc = any(a is other for a in path)
             want_child = bool(path) and path[-1] is other
